@@ -65,7 +65,8 @@ CHECKS = {
              "acks reaching the viewer must be the original ids of the non-injected ones; a forwarded StartPingCheck must carry, for every in-scope id sent so far, "
              "the wire id that packet went out as (or the proxy's own older unacked id, as documented); the circuit search runs with tracker window 2 and 10000 "
              "for an endpoint numbering from 1 and with window 2 for one numbering from 0. Bounded exhaustive: the right level for a small state "
-             "machine whose bugs are 2-4 events deep.",
+             "machine whose bugs are 2-4 events deep. "
+             "Plus closed-form schedules on large windows: W+70 rounds of send/inject with resends and gaps on tracker windows W = 65, 100, 129, 257 (thorough to 2049), the same oracle evaluated densely around and after the eviction point.",
         note="IDs older than an injection that aged out of the window are out of scope (bounded memory); packet-ID wrap-around excluded; "
              "production window is 10000, harness uses 1..3 to reach eviction."),
     "C12": dict(
@@ -89,7 +90,8 @@ CHECKS = {
              "models and 17x3x3 wearables in legacy text, legacy LLSD and AIS: parse(serialize(x)) == x and serialisation fixed point. (2) Animations of both "
              "versions built wire-first incl. a sweep of the U16 grid of each quantised member. (3) Mesh assets over all subsets of 9 segment kinds with all "
              "weight-length vectors, parsed / raw-segment / unparsed. (4) Every chunk arrival sequence of length n+2 (quick) / n+3 (thorough) over n<=4 chunks at "
-             "every chunk-boundary payload size: completion exactly at the first prefix containing all chunks, never earlier, never reverting; payload equal.",
+             "every chunk-boundary payload size: completion exactly at the first prefix containing all chunks, never earlier, never reverting; payload equal. "
+             "Plus many-chunk transfers (12, 13, 24 chunks; thorough 40, 100) in every mode under closed-form arrival orders: each chunk arriving last, reverse, evens-then-odds, every rotation, each with trailing duplicates.",
         note="Names/descriptions without TAB/CR/LF/'|' and without leading/trailing whitespace (format domain); fields a flavour cannot carry at that flavour's "
              "default; required fields carry a value (parent_id=None out of domain); dates at whole seconds, TZ=UTC; floats NaN-free and f32-exact; animation "
              "and mesh models are the parse of a reference wire image; Transfer sender packets follow the simulator (1000-byte chunks); UDP codec trusted."),
@@ -130,7 +132,8 @@ CHECKS = {
              "one byte / length-1 / exact / length+1, prefix and blob consistent) for every length-prefixed, NUL-terminated, fixed-size or to-EOF section and every "
              "ExtraParams entry are judged by the same rule (if the template decodes and re-encodes it, the fast reader must agree). The TextureEntry section is hand-packed by the "
              "reference encoder (canonical face-set bytes, field framing, quantisers restated); exception face sets whose top face sweeps 0..31, 34, 35, 41, 42, 44 "
-             "are enumerated.",
+             "are enumerated. "
+             "Text and MediaURL strings include 1023, 1024, 1025 and 5000 bytes.",
         note="Domain = what the reference encoder emits plus byte mutations of it; TextureEntry, ExtraParams and particle sections are encoded by sub-templates "
              "both decoders share, so a defect common to both inside those is visible only through the re-encode clause; a mutated payload is judged only if the template decodes it and re-encodes "
              "it to itself; PCodes outside the enum are counted, not asserted; enums by value, dataclasses by fields, lazy proxies forced, floats bit-exact; decode "
@@ -275,7 +278,8 @@ CHECKS = {
              "interception, copies have fresh ids; preempt() after {never taken, taken and released in the hook, taken and released later}: exactly one preempt "
              "item carrying the injected response. Flows whose incoming state already carries a stale cap attribution (replays; consumed TEMPORARY cap) must be "
              "handed back with what the URL resolves to now on both legs; wait_for() waiters that ended by timeout, cancellation or an earlier flow own nothing; a flow that already has an owner is never handed to a second "
-             "taker (two hooks; session- and region-level waiters on the same flow).",
+             "taker (two hooks; session- and region-level waiters on the same flow). "
+             "Two-phase cases also with the owning session closed / the owning region dropped between the request and the response event (response still handed back exactly once).",
         note="Waiter ownership is taken from the public contract (dispatched to a default-take waiter means owned until its resume()). A taken, never-resumed flow stays with its taker; faults are Python exceptions at the listed points; pickling/OS-queue failure, a real mitmproxy master, TLS "
              "and sockets are out of scope; mitmproxy.ctx.master stubbed for replay/shutdown; ownership is per flow (first successful take() until the one successful resume()); "
              "includes the owner of a taken flow's cap data (region/session) being dropped and garbage-collected before release; wrapper-cap requests: an addon's "
@@ -288,7 +292,8 @@ CHECKS = {
              "{delivered | lost | delivered after the region was torn down between the request leg and the simulator's answer}, plus injections (inject_event, "
              "inject_message) and region teardown, driven through the real event manager, EventQueueManager, "
              "register_region, LLSDMessageSerializer and SLMITMAddon hooks; the reference model predicts the exact body each poll must return and the region table "
-             "after it. Quick depth 4 / 3 deviations; thorough depth 6 (delivery) and depth 4 (region announcements).",
+             "after it. Quick depth 4 / 3 deviations; thorough depth 6 (delivery) and depth 4 (region announcements). "
+             "Two further searches use simulator response ids starting at 1,000,000 and at -2,000,000,000 (outside any small-integer identity range).",
         note="In-memory queues with pickle round trip, virtual loop, MockTransport; simulator ids strictly increase, events never re-sent, no empty event list, events "
              "well-formed; a stale poll repeats the immediately preceding ack; no two simulators share a seed URL; teardown may drop pending injections; injected events "
              "are only required to keep FIFO order among themselves; the wake-up PlacesQuery is observed, not demanded; 2-3 regions with independent event queues; "
